@@ -244,6 +244,7 @@ func runC10(c *fw.Ctx) {
 		c.Count("deep_path_trees")
 		c10Case(c, r, tree)
 	})
+	c.Cases("overriding-getters", c.N(80, 8000), true, func(i int, r *rng.R) { c10Overriding(c, i, r) })
 }
 
 func c10Case(c *fw.Ctx, r *rng.R, tree *spec.Spec) {
